@@ -250,6 +250,23 @@ pub fn new_session(opts: &Opts) -> Session {
 	Session { state: b.build(), init, traces }
 }
 
+/// a session (state + trace log + stdlib settings) over a caller-supplied import resolver
+pub fn session_with_resolver(ext: &[(String, Ext)], resolver: impl ImportResolver) -> Session {
+	let init = ContextInitializer::new(PathResolver::FileName);
+	let traces = TraceLog::default();
+	init.settings_mut().trace_printer = Rc::new(CollectingPrinter { log: traces.clone() });
+	for (k, v) in ext {
+		match v {
+			Ext::Str(s) => init.add_ext_str(k.as_str().into(), s.as_str().into()),
+			Ext::Code(c) => init.add_ext_code(k, c).unwrap(),
+		}
+	}
+	let mut b = State::builder();
+	b.context_initializer((init.clone(), VerifInit));
+	b.import_resolver(resolver);
+	Session { state: b.build(), init, traces }
+}
+
 pub fn parse_with(parser: Parser, code: &str, source: Source) -> Result<jrsonnet_ir::Expr, (String, usize)> {
 	match parser {
 		Parser::Ir => jrsonnet_ir_parser::parse(code, &jrsonnet_ir_parser::ParserSettings { source })
